@@ -61,6 +61,8 @@ SameContent(c) == IF \A k \in DOMAIN file : c[k] = file[k] THEN TRUE ELSE FALSE
 
 (* after a session that ended with an exception, a foreign process obtained the write lock while   *)
 (* the session's process was idle (emitted outside the lock: no constraint on the model state)    *)
+(* a process finished constructing its handle (CtorTest..CtorRelease of Sessions.tla): the library is left as it is *)
+TMake   == /\ Ev.ev = "Make" /\ lock.writer # Ev.pid /\ Ev.pid \notin lock.readers /\ UNCHANGED <<lock, file, pend>>
 TProbe  == /\ Ev.ev = "Probe" /\ Ev.lock = "acquired" /\ UNCHANGED <<lock, file, pend>>
 TFinal  == /\ Ev.ev = "Final" /\ Ev.lock = "acquired"
            /\ lock.writer = None /\ lock.readers = {}                  \* every session released its lock
@@ -69,7 +71,7 @@ TFinal  == /\ Ev.ev = "Final" /\ Ev.lock = "acquired"
            /\ UNCHANGED <<lock, file, pend>>
 
 Step == /\ ti <= NT /\ l <= Len(Tr)
-        /\ (TWBegin \/ TWPut \/ TWGet \/ TWEnd \/ TRBegin \/ TRGet \/ TREnd \/ TProbe \/ TFinal)
+        /\ (TWBegin \/ TWPut \/ TWGet \/ TWEnd \/ TRBegin \/ TRGet \/ TREnd \/ TMake \/ TProbe \/ TFinal)
         /\ l' = l + 1 /\ ti' = ti
 Reset == lock' = [writer |-> None, readers |-> {}] /\ file' = <<>> /\ pend' = <<>>
 NextTrace == ti' = ti + 1 /\ l' = 1 /\ Reset
